@@ -52,6 +52,11 @@ pub fn selector_text(sel: &Value, r: &mut Rng, vary: bool) -> String {
     }
     s
 }
+/// A CSS comment (bodies with stars, slashes, braces, rule-like text and newlines).
+pub fn comment(r: &mut Rng) -> &'static str {
+    *r.pick(&["/*c*/", "/**/", "/***/", "/*/ c */", "/*//// s ////*/", "/* a * b / c */", "/*\n multi\n line */", "/* { } ; : */",
+              "/* .x{color:red} */", "/*/*/", "/* ** */", "/*a//*b*/"])
+}
 pub fn decl_text(d: &Value, r: &mut Rng, vary: bool) -> String {
     let prop = d["prop"].as_str().unwrap_or("");
     let (mut name, val) = match prop {
@@ -61,14 +66,14 @@ pub fn decl_text(d: &Value, r: &mut Rng, vary: bool) -> String {
             ((if prop == "color" { "color" } else { "background-color" }).to_string(), v)
         }
         "display" => ("display".to_string(), d["val"].as_str().unwrap_or("none").to_string()),
-        "height" => ("height".to_string(), if vary && r.chance(1, 2) { "0px".into() } else { "0".into() }),
-        "overflow" => ("overflow".to_string(), "hidden".to_string()),
+        "height" => ((if vary && r.chance(1, 3) { "max-height" } else { "height" }).to_string(), if vary && r.chance(1, 2) { "0px".into() } else { "0".into() }),
+        "overflow" => ((if vary && r.chance(1, 3) { "overflow-y" } else { "overflow" }).to_string(), "hidden".to_string()),
         "ws" => ("white-space".to_string(), match d["val"].as_str().unwrap_or("") { "Pre" => "pre", "PreWrap" => "pre-wrap", _ => "normal" }.to_string()),
         _ => (d["name"].as_str().unwrap_or("margin").to_string(), d["text"].as_str().unwrap_or("1px").to_string()),
     };
     if vary && r.chance(1, 3) { name = name.to_uppercase(); }
     let imp = if d["imp"].as_bool().unwrap_or(false) { if vary && r.chance(1, 2) { " ! important" } else { " !important" } } else { "" };
-    let sp = if vary { *r.pick(&["", " ", "  ", "\n  ", "/*c*/"]) } else { " " };
+    let sp = if vary { if r.chance(1, 5) { comment(r) } else { *r.pick(&["", " ", "  ", "\n  "]) } } else { " " };
     format!("{}:{}{}{}", name, sp, val, imp)
 }
 /// Variants of insignificant syntax: 0 = canonical.
@@ -81,7 +86,9 @@ pub fn sheet_text(sheet: &Value, r: &mut Rng, v: &Vary) -> String {
         }
         let sels: Vec<String> = rule["sels"].as_array().unwrap().iter().map(|x| selector_text(x, r, v.on)).collect();
         s.push_str(&sels.join(if v.on && r.chance(1, 2) { "," } else { ", " }));
-        s.push_str(if v.on { *r.pick(&["{", " {", " {\n  ", "/**/{ "]) } else { " { " });
+        if v.on && r.chance(1, 5) { s.push_str(comment(r)); }
+        s.push_str(if v.on { *r.pick(&["{", " {", " {\n  ", "{ "]) } else { " { " });
+        if v.on && r.chance(1, 6) { s.push_str(comment(r)); }
         let decls = rule["decls"].as_array().unwrap();
         for (k, d) in decls.iter().enumerate() {
             if v.unknown_props && r.chance(1, 3) { s.push_str(*r.pick(&["margin: 0 auto; ", "font: 12px/1.5 \"A B\", serif; ", "-webkit-x: y; ", "width: calc(100% - 2px); "])); }
@@ -90,7 +97,8 @@ pub fn sheet_text(sheet: &Value, r: &mut Rng, v: &Vary) -> String {
             if last { if v.double_semi { s.push_str(";;"); } else if !v.drop_semi { s.push(';'); } }
             else { s.push_str(if v.on && r.chance(1, 3) { " ; " } else { "; " }); }
         }
-        s.push_str(if v.on { *r.pick(&["}", " }", "\n}\n", " } /* end */ "]) } else { " }\n" });
+        s.push_str(if v.on { *r.pick(&["}", " }", "\n}\n", " } "]) } else { " }\n" });
+        if v.on && r.chance(1, 4) { s.push_str(comment(r)); s.push(' '); }
     }
     s
 }
